@@ -151,6 +151,18 @@ func runC35(c *Ctx) {
 	if p == nil {
 		return
 	}
+	// MoQ control and data streams are decoded before any authentication: the
+	// decoder safety obligations of C32 (allocation bounds incl. capacities, slice
+	// and index guards, loop progress, explicit crash sites) are obligations of C35
+	// too. The table-agreement rules of C32 (varint/wire/msgtype) are not.
+	subObligations(c, runC32, "C32.", "C35.moq_decode.", func(rule string) bool {
+		for _, k := range []string{"C32.alloc_bound", "C32.slice_guard", "C32.index_guard", "C32.loop_progress", "C32.no_crash_site"} {
+			if strings.HasPrefix(rule, k) {
+				return true
+			}
+		}
+		return false
+	})
 	c.Explain = "P1 C35.panic: every ssa.Panic with a source position in the module (outside " + strings.Join(c35NotServer, ", ") + ") matches a row (function | argument) of the classification table with the tabled multiplicity; stale rows are reported. " +
 		"P3 C35.assert / P4c C35.index / P5 C35.div: functions of " + strings.Join(c35Scope, ", ") + ". HF C35.http_filter.{guard,chain,servers}. " +
 		"Length facts are recognised on the canonical description of the indexed value (loads of the same field path), provided no store to that path can reach the access. " +
